@@ -93,3 +93,20 @@ func init() {
 	set(245, 1, 145)  // dotlessi
 	set(248, 4, 146)  // lslash oslash oe germandbls
 }
+
+// Predefined charsets (TN5176 Appendix C), as SIDs per glyph index.
+var (
+	ISOAdobeCharset     = sidRanges(0, 228)
+	ExpertCharset       = sidRanges(0, 1, 229, 238, 13, 15, 99, 99, 239, 248, 27, 28, 249, 266, 109, 110, 267, 318, 158, 158, 155, 155, 163, 163, 319, 326, 150, 150, 164, 164, 169, 169, 327, 378)
+	ExpertSubsetCharset = sidRanges(0, 1, 231, 232, 235, 238, 13, 15, 99, 99, 239, 248, 27, 28, 249, 251, 253, 266, 109, 110, 267, 270, 272, 272, 300, 302, 305, 305, 314, 315, 158, 158, 155, 155, 163, 163, 320, 326, 150, 150, 164, 164, 169, 169, 327, 346)
+)
+
+func sidRanges(r ...int) []int {
+	var out []int
+	for i := 0; i+1 < len(r); i += 2 {
+		for s := r[i]; s <= r[i+1]; s++ {
+			out = append(out, s)
+		}
+	}
+	return out
+}
